@@ -305,10 +305,12 @@ theorem num_Wv (cps : Tensor K) (n1 n2 n3 nc : ℕ) (w1 w2 w3 : ℕ → K) (c : 
 
 /-! ### C02 in `IsEval` form -/
 
-/-- Curves (rational or not), valid basis, admissible parameters. -/
+/-- Curves (rational or not), valid basis, admissible parameters (non-empty in a non-periodic
+direction: the real code raises `ValueError` for `[]` there). -/
 theorem eval_curve {o : Obj K} {b1 : Basis K} (hb : o.bases = #[b1]) (hv1 : b1.Valid) {nc : ℕ}
     (hs : o.cps.shape = [b1.numFunctions, nc]) (hnc : o.rational = true → 1 ≤ nc)
-    {tol : K} (htol : 0 < tol) {us : List K} (hus : ∀ u ∈ us, b1.Admissible tol u) :
+    {tol : K} (htol : 0 < tol) {us : List K} (hus : ∀ u ∈ us, b1.Admissible tol u)
+    (hne1 : b1.periodic < 0 → us ≠ [] := by (first | assumption | (simp; done) | skip)) :
     ∃ res, o.evaluate tol [us] true = .ok res ∧ res.shape = [us.length, o.dimension] ∧
       IsEval o b1.numFunctions us.length (fun p => b1.specRow (us.getD p 0)) res := by
   obtain ⟨hncomp, hdim⟩ := Obj.dimension_of_shape (o := o) (pre := [b1.numFunctions]) hs
@@ -345,7 +347,9 @@ theorem eval_curve {o : Obj K} {b1 : Basis K} (hb : o.bases = #[b1]) (hv1 : b1.V
 theorem eval_surface {o : Obj K} {b1 b2 : Basis K} (hb : o.bases = #[b1, b2]) (hv1 : b1.Valid)
     (hv2 : b2.Valid) {nc : ℕ} (hs : o.cps.shape = [b1.numFunctions, b2.numFunctions, nc])
     (hnc : o.rational = true → 1 ≤ nc) {tol : K} (htol : 0 < tol) {us vs : List K}
-    (hus : ∀ u ∈ us, b1.Admissible tol u) (hvs : ∀ v ∈ vs, b2.Admissible tol v) :
+    (hus : ∀ u ∈ us, b1.Admissible tol u) (hvs : ∀ v ∈ vs, b2.Admissible tol v)
+    (hne1 : b1.periodic < 0 → us ≠ [] := by (first | assumption | (simp; done) | skip))
+    (hne2 : b2.periodic < 0 → vs ≠ [] := by (first | assumption | (simp; done) | skip)) :
     ∃ res, o.evaluate tol [us, vs] true = .ok res ∧
       res.shape = [us.length, vs.length, o.dimension] ∧
       IsEval o (b1.numFunctions * b2.numFunctions) (us.length * vs.length)
@@ -405,7 +409,10 @@ theorem eval_volume {o : Obj K} {b1 b2 b3 : Basis K} (hb : o.bases = #[b1, b2, b
     (hs : o.cps.shape = [b1.numFunctions, b2.numFunctions, b3.numFunctions, nc])
     (hnc : o.rational = true → 1 ≤ nc) {tol : K} (htol : 0 < tol) {us vs ws : List K}
     (hus : ∀ u ∈ us, b1.Admissible tol u) (hvs : ∀ v ∈ vs, b2.Admissible tol v)
-    (hws : ∀ w ∈ ws, b3.Admissible tol w) :
+    (hws : ∀ w ∈ ws, b3.Admissible tol w)
+    (hne1 : b1.periodic < 0 → us ≠ [] := by (first | assumption | (simp; done) | skip))
+    (hne2 : b2.periodic < 0 → vs ≠ [] := by (first | assumption | (simp; done) | skip))
+    (hne3 : b3.periodic < 0 → ws ≠ [] := by (first | assumption | (simp; done) | skip)) :
     ∃ res, o.evaluate tol [us, vs, ws] true = .ok res ∧
       res.shape = [us.length, vs.length, ws.length, o.dimension] ∧
       IsEval o (b1.numFunctions * b2.numFunctions * b3.numFunctions)
